@@ -308,6 +308,21 @@ _HUNG = None
 _NOTRUN = ["driver-exception", "NotRun", "not run: %d cases had already hung in this check" % HUNG_CAP]
 
 
+# Nothing baize computes may depend on the time zone of the server process (HTTP dates are GMT).  Every case is run under
+# a zone chosen from its own text — west and east of Greenwich, with and without daylight saving, a quarter-hour offset —
+# so that a dependence on the local zone (time.mktime, datetime.now() without a zone, naive timestamps) shows as a
+# disagreement with the model, which knows no zone.  ENCODE runs under the same zone as the implementation.
+ZONES = ["UTC0", "EST5", "JST-9", "PST8PDT,M3.2.0,M11.1.0", "<+1345>-13:45", "CET-1CEST,M3.5.0,M10.5.0/3", "<-11>11"]
+
+
+def _set_zone(case):
+    import zlib
+    z = ZONES[zlib.crc32(repr(case).encode("utf-8", "surrogatepass")) % len(ZONES)]
+    if os.environ.get("TZ") != z:
+        os.environ["TZ"] = z
+        time.tzset()
+
+
 def _impl_chunk(cases):
     # the case line for the model is computed in the worker too: an ENCODE hook may run
     # baize (e.g. to obtain the bare application's trace) and must not start threads in
@@ -319,6 +334,7 @@ def _impl_chunk(cases):
             if _HUNG is not None and _HUNG.value >= HUNG_CAP:
                 out.append(("encode-skipped", enc_line(_NOTRUN)))
                 continue
+            _set_zone(c)
             line = _encode_one(c)
             obs = _as_items(_impl_one(c))
             if _HUNG is not None and (line == "encode-failed Hung" or obs[:2] == ["driver-exception", "Hung"]):
